@@ -71,7 +71,9 @@ def _case(draw, tier):
     if chance(draw, 1, 4):
         # a user predicate that opens a symbolic block of its own while it runs
         v = draw(st.integers(0, len(c["vars"]) - 1))
-        c["cond"] = ["and", "nary", [["fpred", "p_runs_subquery", [["var", v], ["const", draw(st.sampled_from([0, 1, 2]))]]],
+        # (... and, in the second spelling, also EVALUATES its nested query - which uses a Predicate subclass and HasType -
+        # while that block is still open)
+        c["cond"] = ["and", "nary", [["fpred", draw(st.sampled_from(["p_runs_subquery", "p_runs_subquery_inside"])), [["var", v], ["const", draw(st.sampled_from([0, 1, 2]))]]],
                                      c["cond"], ["cpred", "IsBig", [["var", v]]]]]
     c["quant"] = draw(st.sampled_from(["an", "the", "the", "infer", "infer"]))
     c["steer"] = draw(st.sampled_from(["keep", "one", "one", "zero"])) if c["quant"] == "the" else "keep"
